@@ -40,6 +40,7 @@ class World(object):
         s.ops = {}          # opid -> dict(thread, obj, kind, idx)
         s.globals = {}
         s.gates = {}
+        s.rewake_gates = set(op[1] for th_ in scen['threads'] for op in th_['ops'] if op[0] == 'rewake')
         s.live_pool = ZERO      # census of spawned-and-not-joined pool threads
         s.install_natives()
         # ghost: the step at which reschedule_queue was last entered for each job queue (keyed by the queue's Arc allocation)
@@ -151,6 +152,13 @@ class World(object):
             s.ghost['gatewaker%d' % k] = merge(g, NoneV(), wk)
             return wk
         R('__gate_open', gate_open2, visible=True)
+        def gate_rewake(mm, th, a, g):
+            k = a[0].val
+            wk = s.ghost.get('gatekept%d' % k)
+            if wk is None: return NoneV()
+            s.ghost['gatekept%d' % k] = merge(g, NoneV(), wk)
+            return wk
+        R('__gate_rewake', gate_rewake, visible=True)
         def gate_poll(mm, th, a, g):
             pin = a[0]; r = pin.f[0] if isinstance(pin, St) and pin.ty == 'Pin' else pin
             fut = mm.load(r, g)
@@ -181,6 +189,11 @@ class World(object):
                         wkc = s.nat.table['__waker_clone'].apply(mm, th, [cx.f['w']], pk_)
                         old = s.ghost.get('gatewaker%d' % gk, NoneV())
                         s.ghost['gatewaker%d' % gk] = merge(pk_, Some(wkc), old)
+                        if gk in s.rewake_gates:
+                            # the event source keeps a second clone of the last waker it was given: a late / duplicate wake-up
+                            # (scenario op `rewake`) fires it after the operation it belonged to may long have finished (stale waker)
+                            wkc2 = s.nat.table['__waker_clone'].apply(mm, th, [cx.f['w']], pk_)
+                            s.ghost['gatekept%d' % gk] = merge(pk_, Some(wkc2), s.ghost.get('gatekept%d' % gk, NoneV()))
                 for opk, oc in ocs: s.gset('polled_pending%d' % opk, TRUE, And(pend, oc), FALSE)
             return En(POLL, Ite(opened, ZERO, ONE), {0: St(None, {0: tok})})
         R('__gate_poll', gate_poll, visible=True)
@@ -428,11 +441,11 @@ class World(object):
                               'try_sync': 'desync_scheduler::try_sync::<u32, {closure@%s}>' % cl}[kind]
                     emit([], '_%d = %s(copy _%d, move _%d) -> [return: bb%d, unwind continue]' % (r, fnname, 1 + q, c, len(blocks) + 1))
                     emit([], '_%d = __op_done(const %d_usize, move _%d) -> [return: bb%d, unwind continue]' % (x, outer, r, len(blocks) + 1))
-                elif kind == 'open_gate':
+                elif kind in ('open_gate', 'rewake'):
                     # open the gate, then wake whatever waker the gated future registered (None if nobody waits yet)
                     w_ = fresh(); d_ = fresh(); k_ = fresh(); u_ = fresh()
                     n0 = len(blocks)
-                    emit([], '_%d = __gate_open(const %d_usize) -> [return: bb%d, unwind continue]' % (w_, op[1], n0 + 1))
+                    emit([], '_%d = %s(const %d_usize) -> [return: bb%d, unwind continue]' % (w_, '__gate_open' if kind == 'open_gate' else '__gate_rewake', op[1], n0 + 1))
                     emit(['_%d = discriminant(_%d)' % (d_, w_)], 'switchInt(move _%d) -> [0: bb%d, otherwise: bb%d]' % (d_, n0 + 3, n0 + 2))
                     emit(['_%d = move ((_%d as Some).0: Waker)' % (k_, w_)], '_%d = Waker::wake(move _%d) -> [return: bb%d, unwind continue]' % (u_, k_, n0 + 3))
                 elif kind in ('future_desync', 'future_sync'):
